@@ -182,7 +182,7 @@ func init() {
 func runC03(env *Env, data map[string]any) *Outcome {
 	c := cmdCaseOf(data)
 	o := &Outcome{Key: hashKey(fmt.Sprint(data)), Tags: []string{"cmd:" + c.Cmd.Kind}}
-	res := runCommand(env, c.Text, c.Cfg, c.Now, c.Cmd, 1)
+	res := runCommand(env, c.Text, c.Cfg, c.Now, c.Cmd, cpusFor(c.Text))
 	model := modelCommand(env, c.Text, c.Cfg, c.Now, c.Cmd)
 	if res.Outcome != model {
 		o.Findings = append(o.Findings, Finding{Kind: "K", What: "K.C03.cmd: result of `klog " + c.Cmd.Kind + "` differs from the model", Impl: short(res.Outcome, 3000) + " | " + short(res.Err, 300), Model: short(model, 3000)})
